@@ -192,6 +192,63 @@ def py_classes(d):
     return {CLS_DIRECTIVE: directive_only, CLS_ANNOT: ann_unres, CLS_CLEARED: cleared}
 
 
+WHY_TAGS = ['params', 'freevarsDup', 'closureLen', 'freeUnreferenced', 'nameCollision', 'directiveOnly', 'annotation', 'cleared']
+FINDING_TAGS = {'directiveOnly': CLS_DIRECTIVE, 'annotation': CLS_ANNOT, 'cleared': CLS_CLEARED}
+
+
+def py_why(d, classes, extra, newname, inner):
+    """The hypotheses of the proved fragment (Lean: `why`), evaluated in Python on the function object + its source."""
+    f, a = d['func'], d['args']
+    code = f.__code__
+    src_params = [(x.arg, 'posonly') for x in a.posonlyargs] + [(x.arg, 'pos') for x in a.args] + \
+        ([(a.vararg.arg, 'varpos')] if a.vararg else []) + [(x.arg, 'kwonly') for x in a.kwonlyargs] + \
+        ([(a.kwarg.arg, 'varkw')] if a.kwarg else [])
+    tags = []
+    if code_params(code) != src_params:
+        tags.append('params')
+    if len(set(code.co_freevars)) != len(code.co_freevars):
+        tags.append('freevarsDup')
+    if len(f.__closure__ or ()) != len(code.co_freevars):
+        tags.append('closureLen')
+    occ_names = {n for n, _ in d['occs']}
+    if any(x not in occ_names for x in code.co_freevars):
+        tags.append('freeUnreferenced')
+    kept = {n for n, dr in d['occs'] if not dr}
+    if any(x in code.co_freevars for x in list(extra) + [newname]) or inner in kept or inner in extra or inner in d['ann_refs']:
+        tags.append('nameCollision')
+    if classes[CLS_DIRECTIVE]:
+        tags.append('directiveOnly')
+    if classes[CLS_ANNOT]:
+        tags.append('annotation')
+    if classes[CLS_CLEARED]:
+        tags.append('cleared')
+    return tags
+
+
+def shape_of(f):
+    """Coarse signature / free-variable situation of a function object (for the evidence distribution)."""
+    ps = code_params(f.__code__)
+    kinds = sorted({k for _, k in ps})
+    sig = '+'.join(kinds) or 'no-params'
+    if f.__defaults__:
+        sig += '+defaults'
+    if f.__kwdefaults__:
+        sig += '+kwdefaults'
+    nfree = len(f.__code__.co_freevars)
+    empty = 0
+    for c in (f.__closure__ or ()):
+        try:
+            c.cell_contents
+        except ValueError:
+            empty += 1
+    fv = 'free:%s' % (nfree if nfree < 4 else '4+')
+    if empty:
+        fv += '/empty-cells'
+    if '__class__' in f.__code__.co_freevars:
+        fv += '/__class__'
+    return sig, fv
+
+
 class Ranker:
     def __init__(self, names):
         self.names = sorted(set(names))
@@ -301,6 +358,8 @@ class CaseRunner:
         self.malt, self.api, self.transpiler, self.naming, self.converter, self.directives = _malt()
         self.lines, self.expect, self.what, self.meta = [], [], [], []
         self.stats = {}
+        self.entities = []        # one record per explored function object: why tags, outcome, oracle verdict
+        self.failed_keys = set()
 
     def stat(self, k, n=1):
         self.stats[k] = self.stats.get(k, 0) + n
@@ -430,6 +489,7 @@ class CaseRunner:
     parent_case = None
 
     def fail(self, what, crec, inst, cls, extra=None):
+        self.failed_keys.add((crec['case'].get('uid'), inst))
         c = {'case': self.parent_case or crec['case'], 'instance': inst, 'source': crec['source']}
         if extra:
             c['detail'] = extra
@@ -591,20 +651,25 @@ class CaseRunner:
             self.fail('rebinding %s not seen by converted sibling' % a, crec, 0, None)
 
     # ---------------------------------------------------------------- L2
-    def correspond(self, case, crec, i, f, ff, d, classes, rec):
+    def correspond(self, case, crec, i, f, ff, d, classes, rec, origin='generated', nominal_ok=False):
         api = self.api
         opts = self.converter.ConversionOptions(recursive=case['recursive'], user_requested=True, optional_features=None)
         bucket = api._TRANSPILER._cache[ff]
         fac = bucket.get(opts)
-        if fac is None:
+        kind, val = rec['outcome']
+        if fac is None and not nominal_ok:
             self.add(None, 'no factory in the cache for the converted function', 'transform', crec)
             return
-        facfree = list(fac._unbound_factory.__code__.co_freevars)
-        extra = list(fac._extra_locals.keys())
-        newname = fac._name
-        inner = fac._unbound_factory.__name__
+        if fac is None:
+            # transform_ast itself raised (no factory was created): only the classifier is evaluated, on nominal names
+            facfree, extra, inner = [], ['ag__'], 'inner_factory'
+            newname = 'ag__' + ('lam' if ff.__code__.co_name == '<lambda>' else ff.__code__.co_name)
+        else:
+            facfree = list(fac._unbound_factory.__code__.co_freevars)
+            extra = list(fac._extra_locals.keys())
+            newname = fac._name
+            inner = fac._unbound_factory.__name__
         code = ff.__code__
-        kind, val = rec['outcome']
         if kind == 'ok' and not inspect.isfunction(val):
             self.add(None, 'to_graph returned %s, not a plain function' % type(val).__name__, 'transform', crec)
             return
@@ -612,6 +677,7 @@ class CaseRunner:
             | set(d['ann_refs']) | {n for n, _ in d['occs']}
         if kind == 'ok':
             names |= set(val.__code__.co_freevars) | {n for n, _ in code_params(val.__code__)} | set((val.__kwdefaults__ or {}).keys())
+            names |= set(val.__qualname__.split('.<locals>.')) | {val.__name__, '<lambda>'}
         names |= set((ff.__kwdefaults__ or {}).keys())
         R = Ranker(names)
         modnames = [R(x) for x in set(d['ann_refs']) if x in ff.__globals__ or hasattr(builtins, x)]
@@ -642,8 +708,17 @@ class CaseRunner:
                [[R(n), dr] for n, dr in d['occs']]]
         fnx = fn_sexp(ff, R, cellmap, objmap, gid)
         call = ['method', 7, fnx] if inspect.ismethod(f) else ['function', fnx]
-        line = 'c09.transform %s %d %d %s %s %s' % (sexp([R(x) for x in extra]), R(newname), R(inner), sexp(modnames),
-                                                   sexp(src), sexp(call))
+        argstr = '%s %d %d %s %s %s' % (sexp([R(x) for x in extra]), R(newname), R(inner), sexp(modnames), sexp(src), sexp(call))
+        tags = py_why(d, classes, extra, newname, inner)
+        sig, fv = shape_of(ff)
+        ent = {'origin': origin, 'key': (crec['case'].get('uid'), i), 'tags_py': tags, 'outcome': kind,
+               'error': (str(val)[:160] if kind != 'ok' else ''), 'kind': case['kind'] + ('/method' if inspect.ismethod(f) else ''),
+               'sig': sig, 'fv': fv, 'line': len(self.lines), 'name': crec.get('name', crec['case'].get('uid'))}
+        self.entities.append(ent)
+        self.add('c09.why ' + argstr, sexp(['why'] + tags), 'why', {'case': crec['case'], 'instance': i})
+        if fac is None:
+            return
+        line = 'c09.transform ' + argstr
         # observed
         if kind == 'ok':
             res = ['ok', fn_sexp(val, R, cellmap, objmap, gid)]
@@ -673,6 +748,231 @@ class CaseRunner:
         observed = [res, ['classes', classes[CLS_DIRECTIVE], classes[CLS_ANNOT], classes[CLS_CLEARED]],
                     ['decorators'] + gen_decos, ['trace'] + gen_trace, ['facfree'] + [R(x) for x in facfree]]
         self.add(line, sexp(observed), 'transform', {'case': crec['case'], 'instance': i, 'names': R.names})
+        if kind == 'ok':
+            # to_graph through the extracted statement list + name / qualname / module / doc / __dict__ of the result
+            is_lam = d['is_lambda']
+            try:
+                docstr = None if is_lam else ast.get_docstring(d['node'], clean=False)
+            except Exception:   # noqa
+                docstr = None
+            qual = val.__qualname__.split('.<locals>.')
+            src_meta = src + [R('<lambda>') if is_lam else 'none', 500 if docstr is not None else 'none']
+            tline = 'c09.tograph %s %d %d %d %s %s %s' % (sexp([R(x) for x in extra]), R(newname), R(inner), R(qual[0]),
+                                                          sexp(modnames), sexp(src_meta), sexp(call))
+            mod_obs = 1 if val.__module__ == ff.__globals__.get('__name__') else 2
+            # the docstring is re-emitted with the generated module's indentation: compared as inspect.cleandoc does
+            doc_obs = 'none' if val.__doc__ is None else \
+                (500 if docstr is not None and inspect.cleandoc(val.__doc__) == inspect.cleandoc(docstr) else 999)
+            tobs = ['ok', fn_sexp(val, R, cellmap, objmap, gid),
+                    ['meta', R(val.__name__), [R(x) for x in qual], mod_obs, doc_obs, list(val.__dict__.keys())]]
+            self.add(tline, sexp(tobs), 'tograph', {'case': crec['case'], 'instance': i, 'names': R.names})
+
+    # ---------------------------------------------------------------- bound objects through converted_call
+    ZOO_SRC = '''
+import functools
+def fn(x=0, y=2, *r, k=1, **kw):
+    return ('fn', x, y, r, k, sorted(kw.items()))
+class Z(object):
+    def __init__(self, tag):
+        self.tag = tag
+    def m(self, x=0, y=2, *r, k=1, **kw):
+        return ('m', self.tag, x, y, r, k, sorted(kw.items()))
+    @classmethod
+    def cm(cls, x=0, y=2, *r, k=1, **kw):
+        return ('cm', cls.__name__, x, y, r, k, sorted(kw.items()))
+    @staticmethod
+    def sm(x=0, y=2, *r, k=1, **kw):
+        return ('sm', x, y, r, k, sorted(kw.items()))
+    def __call__(self, x=0, y=2, *r, k=1, **kw):
+        return ('call', self.tag, x, y, r, k, sorted(kw.items()))
+class ZLen(Z):
+    def __len__(self):
+        return 0
+class ZBool(Z):
+    def __bool__(self):
+        return False
+'''
+
+    def bound_zoo(self, rng, n):
+        """functions, bound methods, classmethods, staticmethods, callable objects and functools.partial chains over
+        them (truthy and falsy receivers) through malt.convert -> converted_call: which entity is converted and which
+        arguments the converted function receives (spy on api._convert_actual) vs the model's `unwrap`; results vs the
+        original callable."""
+        import functools
+        api, malt = self.api, self.malt
+        mod = self.scratch.load('c09zoo_s%d' % self.run.seed, self.ZOO_SRC)
+        classes = [mod.Z, mod.ZLen, mod.ZBool]
+        fn_ids = {mod.fn: 1, mod.Z.m: 2, mod.Z.__dict__['cm'].__func__: 3, mod.Z.sm: 4, mod.Z.__call__: 5}
+        knames = ['k', 'yy', 'zz']
+        R = Ranker(knames)
+        log = []
+        orig = api._convert_actual
+
+        def spy(entity, program_ctx):
+            tf = orig(entity, program_ctx)
+
+            def rec(*a, **k):
+                log.append((entity, a, dict(k)))
+                return tf(*a, **k)
+            rec.ag_source_map = getattr(tf, 'ag_source_map', {})
+            rec.ag_module = getattr(tf, 'ag_module', None)
+            return rec
+        api._convert_actual = spy
+        try:
+            for idx in range(n):
+                v = rng.randrange(3)
+                cls = classes[v]
+                obj = cls('t%d' % v)
+                base = rng.choice(['fn', 'method', 'cm_cls', 'cm_obj', 'sm_cls', 'sm_obj', 'object'])
+                if base == 'fn':
+                    c, desc = mod.fn, ['function', 1]
+                elif base == 'method':
+                    c, desc = obj.m, ['method', 50 + v, 2]
+                elif base in ('cm_cls', 'cm_obj'):
+                    c, desc = (cls.cm if base == 'cm_cls' else obj.cm), ['method', 60 + v, 3]
+                elif base in ('sm_cls', 'sm_obj'):
+                    c, desc = (cls.sm if base == 'sm_cls' else obj.sm), ['function', 4]
+                else:
+                    c, desc = obj, ['object', 50 + v, 5]
+                objmap = {id(obj): 50 + v, id(cls): 60 + v}
+                depth = rng.choice([0, 0, 1, 1, 2, 3])
+                for _ in range(depth):
+                    pa = [100 + rng.randrange(50) for _ in range(rng.choice([0, 1, 1, 2]))]
+                    pk = {kn: 200 + rng.randrange(50) for kn in knames if rng.random() < 0.35}
+                    c = functools.partial(c, *pa, **pk)
+                    desc = ['partial', desc, pa, [[R(kn), vv] for kn, vv in pk.items()]]
+                args = [300 + rng.randrange(50) for _ in range(rng.choice([0, 1, 1, 2, 3]))]
+                kwargs = {kn: 400 + rng.randrange(50) for kn in knames if rng.random() < 0.35}
+                case = {'base': base, 'receiver': cls.__name__, 'partials': depth, 'desc': desc, 'args': args, 'kwargs': kwargs}
+                crec = {'case': {'uid': 'zoo-%d' % idx, 'kind': 'zoo', 'zoo': case}, 'source': self.ZOO_SRC}
+                self.run.case(('zoo', base, cls.__name__, depth, len(args), tuple(sorted(kwargs))), True)
+                self.stat('zoo:%s/%s/partials=%d' % (base, 'falsy' if v else 'truthy', depth))
+
+                def call(fun):
+                    try:
+                        return ('ok', fun(*args, **kwargs))
+                    except Exception as e:   # noqa
+                        return ('exc', type(e).__name__)
+                r0 = call(c)
+                del log[:]
+                conv = malt.convert(recursive=True, optional_features=None)(c)
+                r1 = call(conv)
+                if r0 != r1:
+                    self.fail('converted_call on %s (%s receiver, %d partials): original %r, converted %r'
+                              % (base, cls.__name__, depth, r0, r1), crec, 0, None)
+                if not log:
+                    obs = [['target', 'none'], ['args'], ['kwargs']]
+                else:
+                    ent, a, k = log[0]
+                    fobj = func_of(ent)
+                    obs = [['target', fn_ids.get(fobj, 999)],
+                           ['args'] + [objmap.get(id(x), x if isinstance(x, int) else 998) for x in a],
+                           ['kwargs'] + [[R(kn), vv] for kn, vv in k.items()]]
+                self.add('c09.unwrap %s %s %s' % (sexp(desc), sexp(args), sexp([[R(kn), vv] for kn, vv in kwargs.items()])),
+                         sexp(obs), 'unwrap', case)
+        finally:
+            api._convert_actual = orig
+
+    # ---------------------------------------------------------------- /repo's own functions
+    def repo_functions(self):
+        """Every function / method defined in the malt package itself (deterministic order)."""
+        import pkgutil
+        out, seen = [], set()
+        for m in sorted(pkgutil.walk_packages(self.malt.__path__, 'malt.'), key=lambda x: x.name):
+            try:
+                mod = importlib.import_module(m.name)
+            except Exception:   # noqa
+                self.stat('repo:module_import_failed')
+                continue
+            for name, obj in sorted(vars(mod).items()):
+                cands = []
+                if inspect.isfunction(obj) and obj.__module__ == mod.__name__:
+                    cands.append((name, obj, 'function'))
+                elif inspect.isclass(obj) and obj.__module__ == mod.__name__:
+                    for n2, o2 in sorted(vars(obj).items()):
+                        fn = o2.__func__ if isinstance(o2, (staticmethod, classmethod)) else o2
+                        if inspect.isfunction(fn):
+                            cands.append(('%s.%s' % (name, n2), fn,
+                                          'staticmethod' if isinstance(o2, staticmethod) else
+                                          'classmethod' if isinstance(o2, classmethod) else 'method'))
+                for qn, fn, k in cands:
+                    if id(fn) not in seen:
+                        seen.add(id(fn))
+                        out.append((m.name + '.' + qn, fn, k))
+        return out
+
+    def repo_sweep(self, rng, limit):
+        """Classify (c09.why) and convert /repo's own functions; static oracle on those that convert."""
+        fns = self.repo_functions()
+        self.stats['repo:functions_found'] = len(fns)
+        if limit is not None and len(fns) > limit:
+            fns = [fns[k] for k in sorted(rng.sample(range(len(fns)), limit))]
+        seen_codes = {}
+        for qn, fn, k in fns:
+            if fn.__code__.co_name == '<lambda>':
+                self.stat('repo:skipped:lambda'); continue
+            try:
+                d = describe(fn, self.directives)
+                if d['node'] is None:
+                    raise ValueError('no def node')
+                nlines = (d['node'].end_lineno or 0) - d['node'].lineno
+            except Exception:   # noqa
+                self.stat('repo:skipped:no_source'); continue
+            if nlines > 120:
+                self.stat('repo:skipped:long'); continue
+            if fn.__code__ in seen_codes:
+                # equal code objects share one cached conversion (C10-equal-code-objects): not a C09 observation
+                self.stat('repo:skipped:equal_code_object'); continue
+            seen_codes[fn.__code__] = qn
+            classes = py_classes(d)
+            case = {'recursive': False, 'kind': 'repo:' + k, 'uid': 'repo:' + qn}
+            crec = {'case': case, 'source': qn, 'name': qn}
+            try:
+                tf = self.malt.to_graph(fn, recursive=False, experimental_optional_features=None)
+                outcome = ('ok', tf)
+            except Exception as e:   # noqa
+                outcome = ('error', e)
+            rec = {'outcome': outcome}
+            self.run.case(('repo', qn), bool(fn.__code__.co_freevars or fn.__defaults__ or fn.__kwdefaults__))
+            if outcome[0] == 'ok' and inspect.isfunction(outcome[1]):
+                self.stat('repo:converted')
+                self.static_oracle(crec, fn, outcome[1], classes)
+            else:
+                msg = str(outcome[1])
+                proto = 'closure mismatch' in msg or 'NameError' in msg or 'KeyError' in msg
+                self.stat('repo:' + ('factory_protocol_error' if proto else 'rejected_by_passes:' + type(outcome[1]).__name__))
+                if proto:
+                    cls = CLS_DIRECTIVE if ('closure mismatch' in msg and classes[CLS_DIRECTIVE]) else \
+                        CLS_ANNOT if ('NameError' in msg and classes[CLS_ANNOT]) else None
+                    self.fail('conversion of %s fails in the factory protocol: %s' % (qn, msg[:200]), crec, 0, cls)
+            try:
+                self.correspond(case, crec, 0, fn, fn, d, classes, rec, origin='repo', nominal_ok=True)
+            except KeyError:
+                self.stat('repo:skipped:unrankable')
+
+    def static_oracle(self, crec, ff, tf, classes):
+        """The part of the oracle that needs no call: signature, default identity, globals, cells."""
+        cleared_cls = CLS_CLEARED if classes[CLS_CLEARED] else None
+        s0, s1 = inspect.signature(ff, follow_wrapped=False), inspect.signature(tf, follow_wrapped=False)
+        shape = lambda s: [(p.name, p.kind.name, p.default is not inspect.Parameter.empty) for p in s.parameters.values()]
+        if shape(s0) != shape(s1):
+            self.fail('parameter names / kinds / order / optionality differ: %s vs %s' % (s0, s1), crec, 0, cleared_cls)
+        d0, d1 = ff.__defaults__ or (), tf.__defaults__ or ()
+        if len(d0) != len(d1) or any(a is not b for a, b in zip(d0, d1)):
+            self.fail('__defaults__ elements are not the original objects', crec, 0, cleared_cls)
+        k0, k1 = ff.__kwdefaults__ or {}, tf.__kwdefaults__ or {}
+        if sorted(k0) != sorted(k1) or any(k0[k] is not k1[k] for k in k0):
+            self.fail('__kwdefaults__ values are not the original objects', crec, 0, cleared_cls)
+        if tf.__globals__ is not ff.__globals__:
+            self.fail('__globals__ is not the original module dict', crec, 0, None)
+        own = dict(zip(ff.__code__.co_freevars, ff.__closure__ or ()))
+        got = dict(zip(tf.__code__.co_freevars, tf.__closure__ or ()))
+        for n, cell in got.items():
+            if n in own:
+                if cell is not own[n]:
+                    self.fail('free variable %s of the converted function is not bound to the original cell' % n, crec, 0, None)
+            elif n not in ('ag__', tf.__name__):
+                self.fail('converted function has a free variable %s the original has not' % n, crec, 0, None)
 
     # ---------------------------------------------------------------- L1: the real _PythonFnFactory
     def factory_case(self, rng, idx):
@@ -1025,6 +1325,8 @@ def check(run, only_cases=None):
                 cr.erase_case(run.rng, k)
             for k in range(n_l0):
                 cr.scope_case(run.rng, k)
+            cr.repo_sweep(run.rng, 150 if quick else None)
+            cr.bound_zoo(run.rng, 300 if quick else 1500)
         # ---------------- correspondence
         if run.driver_ok:
             idxs = [k for k, l in enumerate(cr.lines) if l is not None]
@@ -1052,7 +1354,32 @@ def check(run, only_cases=None):
                                                       'case': m})
                 elif e != g:
                     dis.setdefault(w, []).append({'request': l, 'implementation': e, 'model': g, 'source': m})
-            for w in ('erase', 'shape', 'scopes', 'resolve', 'instantiate', 'transform'):
+            # ---- the proved fragment and the finding classes partition what was explored
+            bad_part, dist = [], {}
+            for ent in cr.entities:
+                g = ans.get(ent['line'])
+                try:
+                    tags = parse_sexp(g)[1:]
+                except Exception:
+                    tags = ['unparsable']
+                failed = ent['key'] in cr.failed_keys
+                tagset = '+'.join(tags) or 'in-proved-fragment'
+                for dim, val in (('all', 'all'), ('kind', ent['kind']), ('signature', ent['sig']), ('free_variables', ent['fv'])):
+                    dd2 = dist.setdefault(ent['origin'], {}).setdefault(dim, {}).setdefault(val, {})
+                    dd2[tagset] = dd2.get(tagset, 0) + 1
+                if not tags:
+                    protocol_err = ent['outcome'] != 'ok' and any(x in ent['error'] for x in ('closure mismatch', 'NameError', 'KeyError'))
+                    if failed or protocol_err or (ent['outcome'] != 'ok' and ent['origin'] == 'generated'):
+                        bad_part.append({'entity': ent['name'], 'why': tags, 'problem': 'inside the proved fragment but the real conversion deviates', 'error': ent['error']})
+                elif any(t not in FINDING_TAGS for t in tags):
+                    bad_part.append({'entity': ent['name'], 'why': tags, 'problem': 'outside the proved fragment for a reason that is not a listed finding class'})
+            if cr.entities:
+                run.oblige('model:proved-fragment-has-no-finding-class', 'model', not bad_part, json.dumps(bad_part[:3], default=str)[:1500])
+                run.cov['why_distribution'] = dist
+                n_in = len([1 for e in cr.entities if parse_sexp(ans.get(e['line'], '(why ?)'))[1:] == []])
+                run.cov['proved_fragment'] = {'entities': len(cr.entities), 'in_fragment': n_in,
+                                              'in_a_finding_class': len(cr.entities) - n_in - len([b for b in bad_part if 'not a listed' in b['problem']])}
+            for w in ('erase', 'shape', 'scopes', 'resolve', 'instantiate', 'why', 'transform', 'tograph', 'unwrap'):
                 dd = dis.get(w, [])
                 run.oblige('correspondence:c09.' + w, 'correspondence', not dd and (n_by.get(w, 0) > 0 or only_cases is not None),
                            json.dumps(dd[:2], default=str)[:1800] if dd else ('no case' if not n_by.get(w) else ''))
